@@ -46,6 +46,14 @@ def run(res, replay=None):
         specs = [replay['replay']['spec']]
     else:
         specs = exhaustive_specs(rng, res.tier)
+        # designed: the SAME unbalanced split under another model family evaluated earlier in the same process (the order in which
+        # the breadth-first construction lists the states depends on the model; nothing indexed by state may be shared)
+        for mdl, pre in (({'kind': 'beta', 'alpha': 1.5, 'scale_time': False}, {'kind': 'kingman'}),
+                         ({'kind': 'kingman'}, {'kind': 'dirac', 'psi': 0.5, 'c': 2.0, 'scale_time': False})):
+            for split in ([['a', 1], ['b', 2]], [['b', 0], ['a', 3]]):
+                base = {'n_items': split, 'pop_sizes': {'a': {'0.0': 1.0}, 'b': {'0.0': 2.0}},
+                        'migration_rates': {'a>b': {'0.0': 1.0}, 'b>a': {'0.0': 0.5}}}
+                specs.append(dict(base, model=mdl, prelude=[dict(base, model=pre)]))
 
     def times(spec):
         ts = sorted({float(t) for d in (spec.get('pop_sizes') or {}).values() for t in d} |
